@@ -347,3 +347,40 @@ func vh_udp_connect() {
 		vreach("other")
 	}
 }
+
+// sendto: a write with an explicit destination goes to exactly that address and port -
+// also on a connected socket, also when the address is the connected peer's and only the
+// port differs - through the real Stack.FindRoute.
+func vh_udp_sendto() {
+	s := stack.VHStack()
+	net := &stack.VHNet{Mtu: 1480, Ttl: 64, Nic: 1}
+	stack.VHAddProtocols(s, []stack.NetworkProtocol{&stack.VHProtoV4{EP: net}}, nil)
+	nic := stack.VHNIC(s, 1, &stack.VHLink{Mtu: 1500})
+	vassert(nic.AddAddress(header.IPv4ProtocolNumber, vhLocal) == nil, "address added")
+	stack.VHDefaultRoute(s, 1)
+	e := &endpoint{stack: s, netProto: header.IPv4ProtocolNumber, waiterQueue: &waiter.Queue{}, rcvBufSizeMax: 1 << 16, sndBufSize: 1 << 16, multicastTTL: 1}
+	e.id = stack.TransportEndpointID{LocalPort: 53, LocalAddress: vhLocal}
+	e.state = stateBound
+	if vnBool("connected") {
+		e.state = stateConnected
+		e.id.RemotePort = 4000
+		e.id.RemoteAddress = vhRemote
+		e.dstPort = 4000
+		e.route = stack.VHRoute(nic, net, header.IPv4ProtocolNumber, vhLocal, vhRemote, nil)
+	}
+	to := tcpip.FullAddress{Addr: vhRemote, Port: vnU16("toport")}
+	if vnBool("otherhost") {
+		to.Addr = tcpip.Address("\x0a\x00\x00\x09")
+	}
+	p := vnBytes("p", 2)
+	want := append([]byte{}, p...)
+	got, _, err := e.Write(tcpip.SlicePayload(p), tcpip.WriteOptions{To: &to})
+	vassert(err == nil && int(got) == 2, "the write reports every byte as sent")
+	vassert(len(net.Sent) == 1, "a datagram written is emitted as exactly one packet")
+	pk := net.Sent[0]
+	h := pk.Hdr
+	vassert(len(h) == 8 && vhSame(pk.Payload, want), "the packet carries exactly the written bytes")
+	vassert(pk.Remote == to.Addr && uint16(h[2])<<8|uint16(h[3]) == to.Port, "it is addressed to exactly the address and port given to the write")
+	vassert(pk.Local == vhLocal && uint16(h[0])<<8|uint16(h[1]) == 53, "from the socket's own address and port")
+	vreach("sendto")
+}
